@@ -99,7 +99,7 @@ pub fn gen_line(t: &mut Tape, internal: bool) -> Line {
         10 => l(Kind::SessionOnly, "tmp(X) <- r(X, Y)"),
         11 => l(Kind::SessionOnly, "r(99, 99)"),
         12 => l(Kind::Write, &format!("+sch{}(a: int, b: string)", t.below(3))),
-        13 => l(Kind::Write, [".rule drop p", "-p", ".clear prefix r"][t.below(3)]),
+        13 => l(Kind::Write, [".rule drop p", "-p", ".clear prefix r", ".rule clear p"][t.below(4)]),
         14 | 15 => {
             let n = kg_names[t.below(kg_names.len())];
             Line { kind: Kind::KgUse, text: format!(".kg use {n}"), target: Some(n.to_string()) }
